@@ -1008,6 +1008,8 @@ def run_parse_csv(repo, libfuncs, rule='E6l'):
             continue
         for ix, (r, want) in enumerate(zip(res.l, rows)):
             cells = [r.d.get(h) for h in header]
+            if any(isinstance(c, Sym) for c in cells):
+                raise Unrecognised(rule, f'{desc}: a cell is the unmodelled value {cells!r}', lf.mod.rel)
             if cells != want or set(r.d) - set(header):
                 problems.append(('cells', f'{desc}: row {ix + 1} is {dict(r.d)!r}; the header {header} and the cells give {dict(zip(header, want))!r}'))
                 break
@@ -1229,6 +1231,9 @@ def run_data_accounting(repo, rule='E6l'):
                         problems.append((fname, f'{desc} raises {got[1]}'))
                         continue
                     want = 5 + it.n_eval
+                    odd = [o for o in it.seen_options if o is not None and not isinstance(o, ADict)]
+                    if odd:
+                        raise Unrecognised(rule, f'{desc}: the expression evaluator receives the unmodelled options value {odd[0]!r}', mod.rel)
                     if options.d.get('statementCount') != want:
                         problems.append((fname, f'{desc}: the run\'s options carry statementCount {options.d.get("statementCount")!r} afterwards; 5 before the call + {it.n_eval} expression '
                                                 f'evaluations = {want} (statements executed inside data expressions are not counted against the limit)'))
